@@ -68,13 +68,62 @@ func atomicCall(ins ssa.Instruction) (string, ssa.Value, *ssa.CallCommon) {
 // Fact tells, for a branch condition, whether the fact of interest holds on the true edge and/or false edge.
 type Fact func(cond ssa.Value) (onTrue, onFalse bool)
 
-// notFact handles negation wrappers.
+// withNot lifts a fact over the condition shapes the compiler produces for composite conditions: negation, and the
+// boolean phi of short-circuit && / || (also the `case a && b:` arms of a tagless switch):
+//   p = phi[false, ..., B]  (a && b):  p true  ⇒ every operand true   → the fact holds on the true edge if it holds on the true edge of any operand
+//   p = phi[true, ..., B]   (a || b):  p false ⇒ every operand false  → the fact holds on the false edge if it holds on the false edge of any operand
 func withNot(f Fact) Fact {
 	var g Fact
 	g = func(cond ssa.Value) (bool, bool) {
 		if u, ok := cond.(*ssa.UnOp); ok && u.Op == token.NOT {
 			t, fl := g(u.X)
 			return fl, t
+		}
+		if phi, ok := cond.(*ssa.Phi); ok && len(phi.Edges) >= 2 {
+			if t, fl := f(cond); t || fl {
+				return t, fl
+			}
+			nFalse, nTrue := 0, 0
+			var operands []ssa.Value
+			for i, e := range phi.Edges {
+				if b, isK := constBool(e); isK {
+					if b {
+						nTrue++
+					} else {
+						nFalse++
+					}
+					// the operand that short-circuited: the condition of the predecessor's branch
+					p := phi.Block().Preds[i]
+					if len(p.Instrs) > 0 {
+						if iff, ok := p.Instrs[len(p.Instrs)-1].(*ssa.If); ok {
+							operands = append(operands, iff.Cond)
+						}
+					}
+					continue
+				}
+				operands = append(operands, e)
+			}
+			switch {
+			case nFalse > 0 && nTrue == 0: // conjunction
+				for _, o := range operands {
+					if o == cond {
+						continue
+					}
+					if t, _ := g(o); t {
+						return true, false
+					}
+				}
+			case nTrue > 0 && nFalse == 0: // disjunction
+				for _, o := range operands {
+					if o == cond {
+						continue
+					}
+					if _, fl := g(o); fl {
+						return false, true
+					}
+				}
+			}
+			return false, false
 		}
 		return f(cond)
 	}
